@@ -6301,7 +6301,10 @@ class CodegenCtx:
         result = Outputter()
 
         result.add(f"{self.program_name}_result_t {self.program_name}_end({self.program_name}_state_t *state) {{")
-        result.add(f"#define inval 255") # generate a define for this so that hooks still work
+        # hooks and per-state code still name the last input byte: a constant rather than a macro, which would also
+        # rewrite an output that happens to be called inval
+        result.add(f"    const uint8_t inval = 255;")
+        result.add(f"    (void)inval;")
         with result as contents:
             # Generate a target for transitions whose actions override the next state (mirrors _feed)
             contents.add("repeatswitch:")
@@ -6323,7 +6326,6 @@ class CodegenCtx:
             contents.add(f"default: return {self.program_name.upper()}_FAIL;")
             contents.add("}")
 
-        result.add(f"#undef inval")
         result.add("}")
         return result.value()
 
